@@ -172,6 +172,23 @@ def run_one(dst, env, h, playback=False, timeout=1500):
     return dict(status=st, output=out[-4000:], seconds=round(dt, 1))
 
 
+def harness_key(h, repo, layout_files):
+    """A harness result depends on the module it lives in, lib.rs and gas.rs (types every module may
+    embed), Cargo.toml/lock, the harness source and this script: cache by their content."""
+    import hashlib
+    hh = hashlib.sha256()
+    files = [os.path.join(repo, 'src', h['module'] + '.rs'), os.path.join(repo, 'src', 'lib.rs'), os.path.join(repo, 'src', 'gas.rs'),
+             os.path.join(repo, 'Cargo.toml'), os.path.join(repo, 'Cargo.lock'), os.path.abspath(__file__),
+             os.path.join(VERIF, 'kani', h['module'] + '.rs'), os.path.join(VERIF, 'kani', 'spec_offsets.json')]
+    if h.get('kmod') == 'verif_kani_layouts' and layout_files.get(h['module']):
+        files.append(layout_files[h['module']])
+    for f in files:
+        if os.path.exists(f):
+            hh.update(open(f, 'rb').read())
+    hh.update(json.dumps({k: h.get(k) for k in ('name', 'module', 'mode', 'kmod')}, sort_keys=True).encode())
+    return hh.hexdigest()[:24]
+
+
 def run(build, tier, repo):
     t0 = time.time()
     reg = load_registry(tier)
@@ -183,24 +200,44 @@ def run(build, tier, repo):
         lreg, lfiles = gen_layout_harnesses(build, tmp) if os.path.exists(os.path.join(build, 'map.json')) else ([], {})
         reg = reg + lreg
         modules = sorted(set(h['module'] for h in reg))
-        dst = prepare(repo, tmp, modules, lfiles)
-        env = dict(os.environ, CARGO_NET_OFFLINE='true', CARGO_TARGET_DIR=os.path.join(tmp, 'target'))
-        # build once (sequential) so that the parallel runs below only do the per-harness work
-        first = run_one(dst, env, reg[0])
-        results = {(reg[0]['module'], reg[0]['name']): first}
-        from concurrent.futures import ThreadPoolExecutor
-        with ThreadPoolExecutor(max_workers=12) as ex:
-            futs = {(h['module'], h['name']): ex.submit(run_one, dst, env, h) for h in reg[1:]}
-            for n, f in futs.items():
-                results[n] = f.result()
+        cache_dir = os.path.join(VERIF, 'build', 'kani-cache')
+        os.makedirs(cache_dir, exist_ok=True)
+        results, todo = {}, []
+        for h in reg:
+            h['_key'] = harness_key(h, repo, lfiles)
+            cp = os.path.join(cache_dir, h['_key'] + '.json')
+            if os.path.exists(cp) and not os.environ.get('VERIF_NO_KANI_CACHE'):
+                r = json.load(open(cp))
+                r['cached'] = True
+                results[(h['module'], h['name'])] = r
+            else:
+                todo.append(h)
+        if todo:
+            dst = prepare(repo, tmp, modules, lfiles)
+            env = dict(os.environ, CARGO_NET_OFFLINE='true', CARGO_TARGET_DIR=os.path.join(tmp, 'target'))
+            # build once (sequential) so that the parallel runs below only do the per-harness work
+            results[(todo[0]['module'], todo[0]['name'])] = run_one(dst, env, todo[0])
+            from concurrent.futures import ThreadPoolExecutor
+            with ThreadPoolExecutor(max_workers=12) as ex:
+                futs = {(h['module'], h['name']): ex.submit(run_one, dst, env, h) for h in todo[1:]}
+                for n, f in futs.items():
+                    results[n] = f.result()
+            for h in todo:
+                r = results[(h['module'], h['name'])]
+                if r['status'] == 'failed':
+                    pb = run_one(dst, env, h, playback=True)
+                    r['counterexample'] = parse_playback(pb.get('output', ''))
+                if r['status'] in ('ok', 'failed'):
+                    json.dump(r, open(os.path.join(cache_dir, h['_key'] + '.json'), 'w'))
         for h in reg:
             r = results[(h['module'], h['name'])]
             entry = dict(h)
             entry.update(status=r['status'], seconds=r.get('seconds'))
+            entry.pop('_key', None)
+            entry['cached'] = bool(r.get('cached'))
             if r['status'] == 'failed':
-                pb = run_one(dst, env, h, playback=True)
                 entry['output'] = r['output'][-2500:]
-                entry['counterexample'] = parse_playback(pb.get('output', ''))
+                entry['counterexample'] = r.get('counterexample')
             elif r['status'] != 'ok':
                 entry['output'] = r.get('output', '')[-2500:]
             res.append(entry)
